@@ -100,6 +100,26 @@ def worker(unit, emit):
         # p3: well-formed payloads (shape of a valid number, payload characters re-drawn) + generated characters
         single = len([x for x in dir(mod) if x.startswith('calc_check') and callable(getattr(mod, x))]) == 1
         p3_ok = (single or bool(row.get('domain_re'))) and not is_synth and not row.get('no_p3')
+        # head sweep (first number of the row only): every pair of leading digits (type, range, day or century fields) with every
+        # character at the check position; whatever the validator accepts is a valid number, and p1 speaks about it -- a branch
+        # of the validator that forgets the checksum for one such field value shows here
+        if p3_ok and done == 1 and n == 1 and len(v) > 3 and v[0] in digits and v[1] in digits and not (lo <= 0 < lo + n or lo <= 1 < lo + n):
+            for hd in range(100):
+                w0 = '%02d' % hd + v[2:]
+                if (row.get('domain_re') and not re.search(row['domain_re'], w0)) or (row.get('p3_domain_re') and not re.search(row['p3_domain_re'], w0)):
+                    continue
+                for a in row.get('alphabet', digits):
+                    cand = w0[:lo] + a + w0[lo + 1:]
+                    if cand in excl:
+                        continue
+                    rc = lib.call(mod.validate, cand, **vopts)
+                    if rc['k'] == 'ret' and rc['t'] == 'str' and lib.from_cps(rc['v']) == cand:
+                        pl_c = slicer(cand)[0]
+                        r_c = lib.call(f, pl_c)
+                        emit.trace([dict(base, v=lib.cps(cand), kind='p1', arg=lib.cps(pl_c), r=ac.slim(r_c))],
+                                   {'m': name, 'w': cand, 'how': 'p1 %s(%r) (head sweep)' % (fn, pl_c), 'site': r_c['site']})
+                        emit.count('p1')
+                        emit.count('head_sweep_valid')
         for it in range(p['payloads'] + 1 if p3_ok else 0):
             w = list(v)
             k = 1 + rnd.randrange(3) if it else 0     # first the payload of v itself
@@ -200,7 +220,8 @@ def main():
                            'check position, p3 = payloads of the shape of valid numbers with 1-3 payload characters re-drawn, completed '
                            'with the generated character(s)',
                       extra={'bound_generators': extra.get('generators', 0), 'unbound_generators': sorted(bind.get('unbound', {})),
-                             'p1': extra.get('p1', 0), 'p2': extra.get('p2', 0), 'p3': extra.get('p3', 0)})
+                             'p1': extra.get('p1', 0), 'p2': extra.get('p2', 0), 'p3': extra.get('p3', 0),
+                             'head_sweep_valid': extra.get('head_sweep_valid', 0)})
 
 
 if __name__ == '__main__':
